@@ -298,6 +298,7 @@ type jEntry struct {
 	// description the generation reads
 	RemoteAppMids []string
 	RemoteAllMids []string
+	RemoteSecs    []jSec // all sections of that remote description
 	Err           string
 }
 
@@ -317,13 +318,13 @@ func jSnapshot(pc *webrtc.PeerConnection) []jTr {
 	return out
 }
 
-func jRemoteMids(pc *webrtc.PeerConnection, forOffer bool) (app, all []string) {
+func jRemoteMids(pc *webrtc.PeerConnection, forOffer bool) (app, all []string, secs []jSec) {
 	cur := pc.CurrentRemoteDescription()
 	pend := pc.PendingRemoteDescription()
 	var rd *webrtc.SessionDescription
 	if forOffer {
 		if cur == nil {
-			return nil, nil
+			return nil, nil, nil
 		}
 		rd = cur
 		if pend != nil {
@@ -336,11 +337,11 @@ func jRemoteMids(pc *webrtc.PeerConnection, forOffer bool) (app, all []string) {
 		}
 	}
 	if rd == nil {
-		return nil, nil
+		return nil, nil, nil
 	}
 	d, err := jProjectRemote(rd.SDP)
 	if err != nil {
-		return nil, nil
+		return nil, nil, nil
 	}
 	for _, s := range d.Secs {
 		all = append(all, s.Mid)
@@ -348,7 +349,7 @@ func jRemoteMids(pc *webrtc.PeerConnection, forOffer bool) (app, all []string) {
 			app = append(app, s.Mid)
 		}
 	}
-	return app, all
+	return app, all, d.Secs
 }
 
 func jsepRun(c jCase) *jLog {
@@ -403,7 +404,7 @@ func jsepRun(c jCase) *jLog {
 		case "dc":
 			_, err = pc.CreateDataChannel("d", nil)
 		case "offer", "answer":
-			e.RemoteAppMids, e.RemoteAllMids = jRemoteMids(pc, op.Op == "offer")
+			e.RemoteAppMids, e.RemoteAllMids, e.RemoteSecs = jRemoteMids(pc, op.Op == "offer")
 			var sd webrtc.SessionDescription
 			if op.Op == "offer" {
 				sd, err = pc.CreateOffer(nil)
